@@ -4,12 +4,20 @@ use crate::core::{Ctx, Report};
 
 pub mod c04;
 pub mod c05;
+pub mod c13;
+pub mod c28;
 pub mod c29;
 
 pub type CheckFn = fn(&Ctx) -> Report;
 
 pub fn registry() -> Vec<(&'static str, CheckFn)> {
-    vec![("C04", c04::run as CheckFn), ("C05", c05::run as CheckFn), ("C29", c29::run as CheckFn)]
+    vec![
+        ("C04", c04::run as CheckFn),
+        ("C05", c05::run as CheckFn),
+        ("C13", c13::run as CheckFn),
+        ("C28", c28::run as CheckFn),
+        ("C29", c29::run as CheckFn),
+    ]
 }
 
 pub fn replay(path: &str) -> i32 {
@@ -23,6 +31,8 @@ pub fn replay(path: &str) -> i32 {
     };
     match doc["property"].as_str().unwrap_or("") {
         "C04" => c04::replay(&doc),
+        "C13" => c13::replay(&doc),
+        "C28" => c28::replay(&doc),
         "C29" => c29::replay(&doc),
         x => {
             eprintln!("no replay handler for property {x}; the case is in the file under \"case\"");
